@@ -391,7 +391,7 @@ def check_icvi_fuzzy(ctx):
             _, _, _, old, new, lab_before, wg = mine[-1]
             if not (new > old):
                 ctx.issue("violation", "iCVIFuzzyART.iCVI_match:True without new > old",
-                          f"sample {idx} -> {c}: old {old!r} new {new!r}", dict(rep, sample=idx))
+                          f"sample {idx} (epoch {sidx // n}) -> {c}: index of the labelling before the step {old!r}, after {new!r}", dict(rep, sample=idx, epoch=sidx // n))
                 continue
             # the statement on the index itself (batch values of the two labellings)
             if offline:
@@ -494,8 +494,9 @@ def check_cviart(ctx):
             p["rho"] = r.choice([0.0, 0.25, 0.5])
         if p["rho"] == 0.0 and p["alpha"] == 0.0:
             p["alpha"] = 2.0 ** -10
-        key = ("cviart", validity, p, mode, eps, X.tolist())
-        rep = {"validity": VI_NAMES[validity], "params": p, "mode": mode, "eps": eps, "X": X}
+        epochs = r.choice([1, 1, 2, 3])
+        key = ("cviart", validity, p, mode, eps, X.tolist(), epochs)
+        rep = {"validity": VI_NAMES[validity], "params": p, "mode": mode, "eps": eps, "X": X, "max_iter": epochs}
         try:
             with quiet():
                 m = CVIART(FuzzyART(p["rho"], p["alpha"], p["beta"]), validity)
@@ -531,31 +532,42 @@ def check_cviart(ctx):
         def wrapped_step(x, *a, _b=base, _o=orig_step, **kw):
             nc = len(_b.W)
             cur_index[0] = None
+            k0 = len(calls)
             c = _o(x, *a, **kw)
-            steps.append((nc, int(c)))
+            steps.append((nc, int(c), calls[k0:]))
             return c
 
         object.__setattr__(m, "CVI_match", wrapped_match)
         object.__setattr__(base, "step_fit", wrapped_step)
         try:
             with quiet():
-                m.fit(X, match_tracking=mode, epsilon=eps)
+                m.fit(X, max_iter=epochs, match_tracking=mode, epsilon=eps)
         except Exception as e:
+            if epochs > 1 and isinstance(e, ValueError) and "Number of labels is" in str(e):
+                # a later epoch met a labelling on which the batch index is undefined (every sample its own cluster,
+                # or one cluster only): sklearn raises.  That is a totality defect (C04, finding F35); C15's gate
+                # clause cannot be evaluated on this run
+                cov.hit("cviart:later-epoch-undefined-index-raises(C04-F35)")
+                cov.case(key, False)
+                continue
             ctx.issue("violation", f"CVIART.fit:{exc_enum(e)}:{VI_NAMES[validity]}",
                       f"fit raised {e!r} on validated data (mode {mode})", rep)
             cov.case(key, False)
             continue
         cov.hit(f"cviart:{VI_NAMES[validity]}")
         labels = [int(t) for t in m.labels_]
-        for idx, (nc, c) in enumerate(steps):
+        for sidx, (nc, c, during) in enumerate(steps):
+            idx = sidx % n
+            if sidx >= n:
+                cov.hit("cvi-gate:later-epoch")
             if c >= nc:
                 cov.hit("cvi-gate:new-category")
                 continue
             cov.hit("cvi-gate:joined-existing")
-            mine = [t for t in calls if t[0] == idx and t[1] == c]
+            mine = [t for t in during if t[0] == idx and t[1] == c]
             if not mine or not mine[-1][2]:
                 ctx.issue("violation", "CVIART.fit:joined existing category without a True CVI_match",
-                          f"sample {idx} -> category {c} (of {nc}); calls {[(t[1], t[2]) for t in calls if t[0] == idx]}",
+                          f"sample {idx} (epoch {sidx // n}) -> category {c} (of {nc}); calls {[(t[1], t[2]) for t in during]}",
                           dict(rep, sample=idx))
                 continue
             _, _, _, nW, old, new = mine[-1]
@@ -565,7 +577,7 @@ def check_cviart(ctx):
             better = (new < old) if validity == 2 else (new > old)
             if old is None or not better:
                 ctx.issue("violation", f"CVIART.CVI_match:True without a strictly better index:{VI_NAMES[validity]}",
-                          f"sample {idx} -> {c}: old {old!r} new {new!r}", dict(rep, sample=idx))
+                          f"sample {idx} (epoch {sidx // n}) -> {c}: index of the labelling before the step {old!r}, after {new!r}", dict(rep, sample=idx, epoch=sidx // n))
         for t in calls:
             cov.hit("cvi-gate:allowed" if t[2] else "cvi-gate:vetoed")
         cov.case(key, len(set(labels)) >= 2 and len(calls) > 0)
@@ -578,7 +590,7 @@ def run(ctx):
     ctx.trusted += ["sklearn.metrics.calinski_harabasz_score / davies_bouldin_score / silhouette_score (oracle values)",
                     "float rounding is outside the theorems: exact model vs float implementation compared to 1e-9"]
     ctx.assumptions += ["exact arithmetic (any ordered field); the float-only WGSS==0 defect F26 is listed as a known finding",
-                        "one training pass (max_iter = 1); the validity index value itself is an oracle parameter of cvi_gate"]
+                        "the Lean cvi_gate model covers one training step (any epoch); the validity index value itself is an oracle parameter of it"]
     check_sequences(ctx)
     check_batch(ctx)
     check_icvi_fuzzy(ctx)
